@@ -68,6 +68,7 @@ Definition op_ok (n : nat) (o : op) : Prop :=
   | Swap u i j x _ => 0 <= x
   | Donate i x => 0 <= x
   | Advance dh => 0 <= dh
+  | SetFees _ f => fees_nonneg f
   | _ => True
   end.
 
@@ -263,7 +264,7 @@ Definition t3_eq_sub (a b c : t3) : Prop := a = zip3 Z.sub b c.
 Theorem step_inv n p o p' e : step p o = Ok (p', e) -> op_ok n o -> length (p_lp p) = n -> pool_inv p ->
   pool_inv p' /\ length (p_lp p') = n.
 Proof.
-  intros H OK HL I. destruct o as [u d|u a|u i j x ms| |owner fa fb|i x|dh]; cbn [step] in H.
+  intros H OK HL I. destruct o as [u d|u a|u i j x ms| |owner fa fb|i x|dh|owner f]; cbn [step] in H.
   - destruct (provide_inv n _ _ _ _ _ H OK HL I) as (? & ? & _). auto.
   - destruct OK as [Hu Ha]. eapply withdraw_inv; eauto.
   - cbn [op_ok] in OK. destruct (swap_spec _ _ _ _ _ _ _ H OK I) as (s & res & ri & rj & rk & k & _ & _ & _ & _ & _ & _ & _ & _ & _ & _ & _ & _ & _ & _ & _ & _ & EP & _).
@@ -276,6 +277,9 @@ Proof.
     repeat split; auto. open_pool p. cbn [p_bal p_fee upd3] in *. unfold le3 in *.
     destruct (i =? 0); [|destruct (i =? 1)]; lia.
   - inversion H; subst; clear H. split; auto.
+  - destruct owner; [|discriminate]. destruct (poolfee_valid f); [|discriminate]. inversion H; subst; clear H. split; auto.
+    destruct I as (I1 & I2 & I3 & I4 & I5 & I6 & I7 & _). cbn [op_ok] in OK.
+    unfold pool_inv. cbn [p_bal p_fee p_all p_burn p_supply p_lp p_lp_self p_cfg p_height p_fees p_cw20]. repeat split; auto; apply OK.
 Qed.
 
 (* conservation: every token that left (entered) the pool went to (came from) the acting user, the collector, a burn — or was donated *)
@@ -285,7 +289,7 @@ Theorem step_conserve p o p' e : step p o = Ok (p', e) -> op_ok (length (p_lp p)
   zip3 Z.sub (p_all p') (p_all p) = zip3 Z.add (zip3 Z.sub (p_fee p') (p_fee p)) (e_coll e) /\
   zip3 Z.sub (p_burn p') (p_burn p) = e_burned e.
 Proof.
-  intros H OK I. destruct o as [u d|u a|u i j x ms| |owner fa fb|i x|dh]; cbn [step] in H; cbn [donated].
+  intros H OK I. destruct o as [u d|u a|u i j x ms| |owner fa fb|i x|dh|owner f]; cbn [step] in H; cbn [donated].
   - destruct (provide_inv _ _ _ _ _ _ H OK eq_refl I) as (_ & _ & EB & EF & EA & EU & EE & EC & EBu & _).
     rewrite EB, EF, EA, EU, EE, EC, EBu. destruct d as [[d0 d1] d2]. open_pool p. cbn. repeat split; t3eq.
   - destruct OK as [Hu Ha]. destruct (withdraw_spec _ _ _ _ _ H Ha I) as (ratio & _ & _ & _ & -> & -> & _).
@@ -301,6 +305,8 @@ Proof.
   - inversion H; subst; clear H. open_pool p. cbn [p_bal p_fee p_all p_burn with_bal no_eff e_user e_coll e_burned upd3 zero3].
     destruct (i =? 0); [|destruct (i =? 1)]; cbn; repeat split; t3eq.
   - inversion H; subst; clear H. open_pool p. cbn. repeat split; t3eq.
+  - destruct owner; [|discriminate]. destruct (poolfee_valid f); [|discriminate]. inversion H; subst; clear H.
+    open_pool p. cbn. repeat split; t3eq.
 Qed.
 
 (* ---- histories ---- *)
